@@ -1,34 +1,48 @@
 (** C17 — parallel, push-based and spilling execution equal simple sequential execution: the
     property theorems (statements only; proofs are in Par/Proofs*.v).  Pinned by props/C17.statements.
 
-    Conventions of the statements: [cmp] is a row comparison ([Lt] = sorts first), [leb cmp a b] is
-    "a may come before b"; [P] is the domain on which [cmp] is a total preorder (for the code's
-    comparators: rows whose key columns exist and hold NULL or values of one kind per column —
-    theorems [cmp_rows_m_preorder] / [cmp_rows_s_preorder]); [isort cmp] is the stable sort
-    ([slice::sort_by]); [k_cross_ties] is the class of finding C17-K1. *)
+    The model is that of the code after the repairs 2824ade (stable k-way merges), e7fe7cd (MIN/MAX compare
+    integers with floats), 6cf03c8 (sort emits bounded chunks), b341ff4 (push_through keeps the last output),
+    5457c98 (partition cleanup deletes files), 3d7a126 (chunk size >= 1), b5cd4ea (hash kind tags),
+    c37ad07 (input selection vectors), e002bb7 (LimitingSink truncates); the [_pre] definitions transcribe
+    the code before, with a [_pre_refuted] theorem each.
+
+    Conventions: [cmp] is a row comparison ([Lt] = sorts first), [leb cmp a b] is "a may come before b";
+    [P] is the domain on which [cmp] is antisymmetric and transitive (for the code's comparators: rows
+    whose key columns exist and hold NULL or values of one kind per column — [cmp_rows_m_preorder] /
+    [cmp_rows_s_preorder]); [isort cmp] is the stable sort ([slice::sort_by]). *)
 From Coq Require Export List Permutation Sorted ZArith Bool.
 From GV Require Export Par.Rows Par.Merge Par.Morsel Par.Accum Par.Push Par.ExtSort Par.Sched.
 From GV Require Import Par.Proofs Par.ProofsAccum Par.ProofsMorsel Par.ProofsPush Par.ProofsChain Par.ProofsSel Par.ProofsSched Par.ProofsExt
-     Par.ProofsCmp Par.ProofsC17 Par.ProofsDistinct Par.ProofsAgg.
+     Par.ProofsCmp Par.ProofsC17 Par.ProofsDistinct Par.ProofsAgg Par.ProofsStable.
 Export ListNotations.
 
 (** ** 1. k-way merge of sorted runs (merge_sorted_runs, merge_sorted_chunks, ExternalSort::k_way_merge) *)
 
+(** = the sequential stable sort of the concatenated runs, for ALL sorted runs *)
+Theorem kway_merge_stable : forall (A : Type) (cmp : A -> A -> comparison) (P : A -> Prop),
+  (forall a b, P a -> P b -> cmp b a = CompOpp (cmp a b)) ->
+  (forall a b c, P a -> P b -> P c -> leb cmp a b = true -> leb cmp b c = true -> leb cmp a c = true) ->
+  forall runs, Forall P (concat runs) -> Forall (fun r => sortedb cmp r = true) runs ->
+  merge_sorted_runs cmp runs = isort cmp (concat runs).
+Proof. intros A cmp P Ha Ht. exact (merge_sorted_runs_stable_l cmp P Ha Ht). Qed.
+Print Assumptions kway_merge_stable.
+
 Theorem kway_merge_spec : forall (A : Type) (cmp : A -> A -> comparison) (P : A -> Prop),
-  (forall a b, P a -> P b -> leb cmp a b = true \/ leb cmp b a = true) ->
+  (forall a b, P a -> P b -> cmp b a = CompOpp (cmp a b)) ->
   (forall a b c, P a -> P b -> P c -> leb cmp a b = true -> leb cmp b c = true -> leb cmp a c = true) ->
   forall runs, Forall P (concat runs) -> Forall (fun r => sortedb cmp r = true) runs ->
   StronglySorted (fun a b => leb cmp a b = true) (merge_sorted_runs cmp runs)
   /\ Permutation (merge_sorted_runs cmp runs) (concat runs).
-Proof. exact kway_merge_spec_l. Qed.
+Proof. intros A cmp P Ha Ht. exact (merge_sorted_runs_spec_new_l cmp P Ha Ht). Qed.
 Print Assumptions kway_merge_spec.
 
 Theorem kway_merge_single : forall (A : Type) (cmp : A -> A -> comparison) (r : list A),
   merge_sorted_runs cmp (r :: nil) = r /\ merge_sorted_runs cmp nil = nil.
-Proof. exact kway_merge_single_l. Qed.
+Proof. intros. split; reflexivity. Qed.
 Print Assumptions kway_merge_single.
 
-(** every run comes out in its own order (the rows tagged with run index i, in output order, are run i) *)
+(** the generic heap merge (any comparison of the heap entries): every run comes out in its own order *)
 Theorem kway_merge_run_order : forall (A : Type) (cmp : A -> A -> comparison) (P : A -> Prop),
   (forall a b, P a -> P b -> leb cmp a b = true \/ leb cmp b a = true) ->
   (forall a b c, P a -> P b -> P c -> leb cmp a b = true -> leb cmp b c = true -> leb cmp a c = true) ->
@@ -37,43 +51,46 @@ Theorem kway_merge_run_order : forall (A : Type) (cmp : A -> A -> comparison) (P
 Proof. exact kway_merge_run_order_l. Qed.
 Print Assumptions kway_merge_run_order.
 
-(** = the sequential stable sort of the concatenation, outside the class of C17-K1 *)
-Theorem kway_merge_stable : forall (A : Type) (cmp : A -> A -> comparison) (P : A -> Prop),
+(** before 2824ade (C17-K1): equal to the stable sort only without ties across runs ... *)
+Theorem kway_merge_pre_stable : forall (A : Type) (cmp : A -> A -> comparison) (P : A -> Prop),
   (forall a b, P a -> P b -> leb cmp a b = true \/ leb cmp b a = true) ->
   (forall a b c, P a -> P b -> P c -> leb cmp a b = true -> leb cmp b c = true -> leb cmp a c = true) ->
   forall runs, Forall P (concat runs) -> Forall (fun r => sortedb cmp r = true) runs ->
   k_cross_ties cmp runs = false ->
-  merge_sorted_runs cmp runs = isort cmp (concat runs).
+  merge_sorted_runs_pre cmp runs = isort cmp (concat runs).
 Proof. exact kway_merge_stable_l. Qed.
-Print Assumptions kway_merge_stable.
+Print Assumptions kway_merge_pre_stable.
 
-(** C17-K1: with equal keys in different runs the merge is sorted but is not the stable sort *)
-Theorem kway_merge_stable_refuted : exists runs : list (list (Z * Z)),
+(** ... and with equal keys in different runs sorted, but not the stable sort *)
+Theorem kway_merge_pre_refuted : exists runs : list (list (Z * Z)),
     let cmp := fun a b : Z * Z => Z.compare (fst a) (fst b) in
     Forall (fun r => sortedb cmp r = true) runs /\
-    sortedb cmp (merge_sorted_runs cmp runs) = true /\
-    merge_sorted_runs cmp runs <> isort cmp (concat runs).
-Proof. exact kway_merge_stable_refuted_l. Qed.
-Print Assumptions kway_merge_stable_refuted.
+    sortedb cmp (merge_sorted_runs_pre cmp runs) = true /\
+    merge_sorted_runs_pre cmp runs <> isort cmp (concat runs) /\
+    merge_sorted_runs cmp runs = isort cmp (concat runs).
+Proof. exact kway_merge_pre_refuted_l. Qed.
+Print Assumptions kway_merge_pre_refuted.
 
-(** the code's comparators are total preorders on typed rows (premises [total]/[trans] above) *)
+(** the code's comparators are antisymmetric, total and transitive on typed rows *)
 Theorem cmp_rows_m_preorder : forall keys kinds,
   (forall a b, typed_row keys kinds a = true -> typed_row keys kinds b = true ->
+     cmp_rows_m keys b a = CompOpp (cmp_rows_m keys a b))
+  /\ (forall a b, typed_row keys kinds a = true -> typed_row keys kinds b = true ->
      leb (cmp_rows_m keys) a b = true \/ leb (cmp_rows_m keys) b a = true)
   /\ (forall a b c, typed_row keys kinds a = true -> typed_row keys kinds b = true -> typed_row keys kinds c = true ->
      leb (cmp_rows_m keys) a b = true -> leb (cmp_rows_m keys) b c = true -> leb (cmp_rows_m keys) a c = true).
-Proof. intros keys kinds. split; [exact (cmp_rows_m_total_l keys kinds)|exact (cmp_rows_m_trans_l keys kinds)]. Qed.
+Proof. intros keys kinds. split; [exact (cmp_rows_m_antisym_l keys kinds)|split; [exact (cmp_rows_m_total_l keys kinds)|exact (cmp_rows_m_trans_l keys kinds)]]. Qed.
 Print Assumptions cmp_rows_m_preorder.
 
 Theorem cmp_rows_s_preorder : forall keys kinds,
   (forall a b, typed_row keys kinds a = true -> typed_row keys kinds b = true ->
-     leb (cmp_rows_s keys) a b = true \/ leb (cmp_rows_s keys) b a = true)
+     cmp_rows_s keys b a = CompOpp (cmp_rows_s keys a b))
   /\ (forall a b c, typed_row keys kinds a = true -> typed_row keys kinds b = true -> typed_row keys kinds c = true ->
      leb (cmp_rows_s keys) a b = true -> leb (cmp_rows_s keys) b c = true -> leb (cmp_rows_s keys) a c = true)
   /\ (forall a b, typed_row keys kinds a = true -> typed_row keys kinds b = true ->
      cmp_rows_s keys a b = cmp_rows_m keys a b).
 Proof.
-  intros keys kinds. split; [exact (cmp_rows_s_total_l keys kinds)|split; [exact (cmp_rows_s_trans_l keys kinds)|exact (cmp_rows_s_m keys kinds)]].
+  intros keys kinds. split; [exact (cmp_rows_s_antisym_l keys kinds)|split; [exact (cmp_rows_s_trans_l keys kinds)|exact (cmp_rows_s_m keys kinds)]].
 Qed.
 Print Assumptions cmp_rows_s_preorder.
 
@@ -116,7 +133,8 @@ Theorem morsels_cover_rows : forall (A : Type) (xs : list A) size src,
 Proof. intros A xs size src. exact (morsels_cover_rows_l xs size src). Qed.
 Print Assumptions morsels_cover_rows.
 
-(** ** 3. partial aggregates *)
+(** ** 3. partial aggregates ([uniformb]: the non-null values are of one comparability class; integers and
+    floats are one class since e7fe7cd) *)
 
 Theorem accum_homomorphism : forall xs ys, uniformb (xs ++ ys) = true ->
   fold_add (xs ++ ys) acc0 = merge (fold_add xs acc0) (fold_add ys acc0).
@@ -128,14 +146,20 @@ Theorem accum_merge_tree : forall t, uniformb (flatten t) = true -> eval t = fol
 Proof. exact accum_merge_tree_l. Qed.
 Print Assumptions accum_merge_tree.
 
-(** C17-K2: a column mixing kinds *)
+(** C17-K12 (what is left of C17-K2): a column mixing numbers with strings *)
 Theorem accum_homomorphism_refuted : exists xs ys,
   finalize_min (fold_add (xs ++ ys) acc0) <> finalize_min (merge (fold_add xs acc0) (fold_add ys acc0)).
 Proof. exact accum_refuted_l. Qed.
 Print Assumptions accum_homomorphism_refuted.
 
-(** merging in either order (worker completion order) *)
-Theorem accum_merge_comm : forall xs ys, uniformb (xs ++ ys) = true ->
+(** before e7fe7cd (C17-K2) a numeric column mixing integers and floats was enough *)
+Theorem accum_pre_refuted : exists xs ys,
+  uniformb (xs ++ ys) = true /\ min_fold_pre (xs ++ ys) <> min_merge_pre (min_fold_pre xs) (min_fold_pre ys).
+Proof. exact accum_pre_refuted_l. Qed.
+Print Assumptions accum_pre_refuted.
+
+(** merging in either order (worker completion order); values of one kind *)
+Theorem accum_merge_comm : forall xs ys, uniformb_kind (xs ++ ys) = true ->
   (forall v, In v (xs ++ ys) -> kind v <> 1%nat) ->
   let a := fold_add xs acc0 in let b := fold_add ys acc0 in
   a_count (merge a b) = a_count (merge b a) /\ a_sum (merge a b) = a_sum (merge b a)
@@ -143,56 +167,71 @@ Theorem accum_merge_comm : forall xs ys, uniformb (xs ++ ys) = true ->
 Proof. exact accum_merge_comm_b. Qed.
 Print Assumptions accum_merge_comm.
 
-(** ** 4. push operators = list specification (= the pull twins' specification), any chunking *)
+(** GROUP BY: grouping every hash partition separately (the spilling aggregate) = grouping everything *)
+Theorem group_by_partitioned : forall (K : Type) (keq : K -> K -> bool) (aggs : list aggexpr) (pf : K -> nat),
+  (forall a b, keq a b = true -> pf a = pf b) ->
+  forall n, (forall k, (pf k < n)%nat) -> forall rows : list (K * row * row),
+  Permutation (concat (map (fun p => group_by keq aggs (filter (fun x => Nat.eqb (pf (fst (fst x))) p) rows)) (seq 0 n)))
+              (group_by keq aggs rows).
+Proof. exact (@group_by_partitioned_l). Qed.
+Print Assumptions group_by_partitioned.
+
+(** ** 4. push operators and operator chains = list specification (= the pull twins' specification) *)
 
 Theorem push_equals_pull : forall (R K : Type) (keq : K -> K -> bool) (k : @opk R K) (cs : list (list R)),
   concat (run1 keq k cs) = spec keq k (concat cs).
 Proof. intros R K keq. exact (push_equals_pull_l keq). Qed.
 Print Assumptions push_equals_pull.
 
-Theorem chain2_streaming_ok : forall (R K : Type) (keq : K -> K -> bool) (k1 k2 : @opk R K) (cs : list (list R)),
-  streaming k1 = true ->
-  concat (run_chain keq [k1; k2] cs) = spec keq k2 (spec keq k1 (concat cs)).
-Proof. intros R K keq. exact (chain2_streaming_ok_l keq). Qed.
-Print Assumptions chain2_streaming_ok.
+(** chains of ANY length and shape (filters, projections, DISTINCTs, sorts, LIMITs anywhere) run by
+    Pipeline::execute's push_through / finalize_all with early stop, ANY chunking of the input *)
+Theorem pipeline_chain_correct : forall (R K : Type) (keq : K -> K -> bool) (ks : list (@opk R K)) (cs : list (list R)),
+  concat (run_chain keq ks cs) = chain_spec keq ks (concat cs).
+Proof. intros R K keq. exact (chain_correct_l keq). Qed.
+Print Assumptions pipeline_chain_correct.
 
-(** chains of any length run by Pipeline::execute (push_through, finalize_all), any chunking: no LIMIT
-    before the last operator (inner sorts, filters, projections, DISTINCTs; any last operator) *)
-Theorem chain_no_inner_limit : forall (R K : Type) (keq : K -> K -> bool) (ks : list (@opk R K)),
-  no_inner_limit ks = true ->
-  forall cs : list (list R), concat (run_chain keq ks cs) = chain_spec keq ks (concat cs).
-Proof. intros R K keq. exact (chain_no_inner_limit_l keq). Qed.
-Print Assumptions chain_no_inner_limit.
+(** Pipeline::execute over a table, with the chunk size the operators' hints give: ends, and returns the specification *)
+Theorem pipeline_run_correct : forall (R K : Type) (keq : K -> K -> bool) (ks : list (@opk R K)) (rows : list R),
+  exists out, pipeline_run keq ks rows = PRows out /\ concat out = chain_spec keq ks rows.
+Proof. intros R K keq. exact (pipeline_correct_l keq). Qed.
+Print Assumptions pipeline_run_correct.
 
-(** C17-K5: an inner LIMIT loses its last chunk *)
-Theorem pipeline_chain_refuted : exists (ks : list (@opk nat unit)) (rows : list nat),
+(** stopping at the first "stop" answer and pushing every chunk regardless give the same chunks *)
+Theorem stop_loses_nothing : forall (R K : Type) (keq : K -> K -> bool) (ks : list (@opk R K)) (cs : list (list R)),
+  run_chain keq ks cs
+  = snd (push_all keq ks (init_chain ks) cs) ++ finalize_all keq ks (fst (push_all keq ks (init_chain ks) cs)).
+Proof. intros R K keq. exact (run_chain_total keq). Qed.
+Print Assumptions stop_loses_nothing.
+
+(** before b341ff4 (C17-K5): an inner LIMIT lost its last chunk *)
+Theorem pipeline_chain_pre_refuted : exists (ks : list (@opk nat unit)) (rows : list nat),
     let keq := fun _ _ : unit => true in
     k_inner_limit_hit ks (length rows) = true /\
-    exists out, pipeline_run keq ks rows = PRows out /\ concat out <> chain_spec keq ks rows.
+    exists out, pipeline_run_pre keq ks rows = PRows out /\ concat out <> chain_spec keq ks rows.
 Proof. exact pipeline_chain_refuted_l. Qed.
-Print Assumptions pipeline_chain_refuted.
+Print Assumptions pipeline_chain_pre_refuted.
 
-(** C17-K7: LIMIT 0 behind another operator: chunk size hint 0, the run never ends *)
-Theorem pipeline_limit0_diverges : forall (R K : Type) (keq : K -> K -> bool) (p : R -> bool) (r0 : R) (rows : list R),
-  pipeline_run keq [OFilter p; OLimit 0] (r0 :: rows) = PDiverge.
+(** before 3d7a126 (C17-K7): LIMIT 0 behind another operator: chunk size hint 0, the run never ended *)
+Theorem pipeline_limit0_pre_diverges : forall (R K : Type) (keq : K -> K -> bool) (p : R -> bool) (r0 : R) (rows : list R),
+  pipeline_run_pre keq [OFilter p; OLimit 0] (r0 :: rows) = PDiverge.
 Proof. intros R K keq. exact (pipeline_limit0_diverges_l keq). Qed.
-Print Assumptions pipeline_limit0_diverges.
+Print Assumptions pipeline_limit0_pre_diverges.
 
-(** input chunks with a selection vector whose selected rows are the prefix 0..n-1 (in particular: all rows):
-    the operators behave as on the flat chunk of those rows, so the theorems above apply *)
-Theorem push_sel_not_k9 : forall (R K : Type) (keq : K -> K -> bool) (k : @opk R K) (s : @opst R K) (phys : list R) (sel : list nat),
+(** before c37ad07 (C17-K9): input chunks with a selection vector were handled like the flat chunk of the
+    selected rows only when the selection was a prefix 0..n-1 ... *)
+Theorem push_sel_pre_prefix : forall (R K : Type) (keq : K -> K -> bool) (k : @opk R K) (s : @opst R K) (phys : list R) (sel : list nat),
   sel_is_prefix sel = true -> (length sel <= length phys)%nat ->
-  push_sel keq k s phys sel = push keq k s (firstn (length sel) phys).
-Proof. intros R K keq. exact (push_sel_not_k9_l keq). Qed.
-Print Assumptions push_sel_not_k9.
+  push_sel_pre keq k s phys sel = push_sel keq k s phys sel.
+Proof. intros R K keq. exact (push_sel_pre_prefix_l keq). Qed.
+Print Assumptions push_sel_pre_prefix.
 
-(** C17-K9: rows 0..9 with rows 5..9 selected through FILTER true: nothing comes out *)
-Theorem push_sel_refuted : exists (phys : list nat) (sel : list nat),
+(** ... rows 0..9 with rows 5..9 selected through FILTER true: nothing came out *)
+Theorem push_sel_pre_refuted : exists (phys : list nat) (sel : list nat),
   k_sel_not_prefix [sel] = true /\
   let k := @OFilter nat unit (fun _ => true) in
-  concat (snd (fst (push_sel (fun _ _ : unit => true) k st0 phys sel))) <> spec (fun _ _ : unit => true) k (sel_rows phys sel).
+  concat (snd (fst (push_sel_pre (fun _ _ : unit => true) k st0 phys sel))) <> spec (fun _ _ : unit => true) k (sel_rows phys sel).
 Proof. exact push_sel_refuted_l. Qed.
-Print Assumptions push_sel_refuted.
+Print Assumptions push_sel_pre_refuted.
 
 (** ** 5. schedules: any assignment of morsels to any number of workers, any order *)
 
@@ -201,6 +240,14 @@ Theorem schedule_perm : forall (Y : Type) (f : nat -> list Y) (nm : nat) (sch : 
   Permutation (concat (map (fun w => concat (map f w)) sch)) (concat (map f (seq 0 nm))).
 Proof. intros Y. exact (@schedule_perm_l Y). Qed.
 Print Assumptions schedule_perm.
+
+(** ANY chain: every worker computes the sequential chain on the rows of the morsels it took, whatever the chunk size *)
+Theorem worker_run_spec : forall (R K : Type) (keq : K -> K -> bool) (ks : list (@opk R K))
+  csize (rows : list R) ms mine, (0 < csize)%nat ->
+  concat (worker_run keq ks csize rows ms mine)
+  = chain_spec keq ks (concat (map (fun i => slice rows (nth i ms dummy_morsel)) mine)).
+Proof. intros R K keq. exact (worker_run_spec_l keq). Qed.
+Print Assumptions worker_run_spec.
 
 Theorem schedule_independent : forall (R K : Type) (keq : K -> K -> bool) (ks : list (@opk R K)),
   forallb stateless_op ks = true ->
@@ -218,16 +265,6 @@ Theorem sequential_run_spec : forall (R K : Type) (keq : K -> K -> bool) (ks : l
 Proof. intros R K keq. exact (sequential_run_spec_l keq). Qed.
 Print Assumptions sequential_run_spec.
 
-(** chains without any LIMIT (filters, projections, DISTINCTs, sorts, in any order and number): every worker
-    computes the sequential chain on the rows of the morsels it took, whatever the chunk size *)
-Theorem worker_run_spec : forall (R K : Type) (keq : K -> K -> bool) (ks : list (@opk R K)),
-  forallb (fun k => negb (is_limit k)) ks = true ->
-  forall csize (rows : list R) ms mine, (0 < csize)%nat ->
-  concat (worker_run keq ks csize rows ms mine)
-  = chain_spec keq ks (concat (map (fun i => slice rows (nth i ms dummy_morsel)) mine)).
-Proof. intros R K keq. exact (worker_run_spec_l keq). Qed.
-Print Assumptions worker_run_spec.
-
 (** per-worker DISTINCT + the distinct merge = the sequential DISTINCT (as a set), any schedule *)
 Theorem schedule_distinct : forall (R : Type) (req : R -> R -> bool),
   (forall a b, req a b = true <-> a = b) ->
@@ -238,61 +275,56 @@ Theorem schedule_distinct : forall (R : Type) (req : R -> R -> bool),
 Proof. exact (@schedule_distinct_l). Qed.
 Print Assumptions schedule_distinct.
 
-(** per-worker sort + k-way merge of the workers' runs *)
+(** per-worker sort + k-way merge of the workers' sorted chunks: the stable sort of what the workers
+    produced, hence a sorted permutation of the input *)
 Theorem schedule_sort : forall (R K : Type) (keq : K -> K -> bool) (cmp : R -> R -> comparison) (P : R -> Prop),
-  (forall a b, P a -> P b -> leb cmp a b = true \/ leb cmp b a = true) ->
+  (forall a b, P a -> P b -> cmp b a = CompOpp (cmp a b)) ->
   (forall a b c, P a -> P b -> P c -> leb cmp a b = true -> leb cmp b c = true -> leb cmp a c = true) ->
   forall csize (rows : list R) ms sch, (0 < csize)%nat -> Forall P rows ->
   concat (map (slice rows) ms) = rows -> valid_schedule (length ms) sch ->
   let parts := parallel_run keq [@OSort R K cmp] csize rows ms sch in
-  StronglySorted (fun a b => leb cmp a b = true) (merge_sorted_runs cmp parts)
+  merge_sorted_runs cmp parts = isort cmp (concat parts)
+  /\ StronglySorted (fun a b => leb cmp a b = true) (merge_sorted_runs cmp parts)
   /\ Permutation (merge_sorted_runs cmp parts) rows.
-Proof. intros R K keq cmp P Ht Hr. exact (schedule_sort_l keq cmp P Ht Hr). Qed.
+Proof. intros R K keq cmp P Ha Ht. exact (schedule_sort_l keq cmp P Ha Ht). Qed.
 Print Assumptions schedule_sort.
 
-(** ** 6. external sort: every memory budget *)
+(** ** 6. external sort: every memory budget gives the in-memory stable sort *)
 
 Theorem merge_all_spec : forall (A : Type) (cmp : A -> A -> comparison) (P : A -> Prop),
-  (forall a b, P a -> P b -> leb cmp a b = true \/ leb cmp b a = true) ->
+  (forall a b, P a -> P b -> cmp b a = CompOpp (cmp a b)) ->
   (forall a b c, P a -> P b -> P c -> leb cmp a b = true -> leb cmp b c = true -> leb cmp a c = true) ->
   forall runs mem, Forall P (concat runs ++ mem) -> Forall (fun r => sortedb cmp r = true) runs ->
-  StronglySorted (fun a b => leb cmp a b = true) (merge_all cmp runs mem)
-  /\ Permutation (merge_all cmp runs mem) (concat runs ++ mem)
-  /\ (k_cross_ties cmp (runs ++ [mem]) = false -> merge_all cmp runs mem = isort cmp (concat runs ++ mem)).
-Proof. intros A cmp P Ht Hr. exact (merge_all_spec_b cmp P Ht Hr). Qed.
+  merge_all cmp runs mem = isort cmp (concat runs ++ mem).
+Proof. intros A cmp P Ha Ht. exact (merge_all_stable_l cmp P Ha Ht). Qed.
 Print Assumptions merge_all_spec.
 
 (** every way of cutting the input into sorted runs + an in-memory rest *)
 Theorem external_sort_spec : forall (A : Type) (cmp : A -> A -> comparison) (P : A -> Prop),
-  (forall a b, P a -> P b -> leb cmp a b = true \/ leb cmp b a = true) ->
+  (forall a b, P a -> P b -> cmp b a = CompOpp (cmp a b)) ->
   (forall a b c, P a -> P b -> P c -> leb cmp a b = true -> leb cmp b c = true -> leb cmp a c = true) ->
   forall pieces mem, Forall P (concat pieces ++ mem) ->
-  StronglySorted (fun a b => leb cmp a b = true) (merge_all cmp (map (isort cmp) pieces) mem)
-  /\ Permutation (merge_all cmp (map (isort cmp) pieces) mem) (concat pieces ++ mem)
-  /\ (k_cross_ties cmp (map (isort cmp) pieces ++ [mem]) = false ->
-      merge_all cmp (map (isort cmp) pieces) mem = isort cmp (concat pieces ++ mem)).
-Proof. intros A cmp P Ht Hr. exact (external_sort_spec_b cmp P Ht Hr). Qed.
+  merge_all cmp (map (isort cmp) pieces) mem = isort cmp (concat pieces ++ mem).
+Proof. intros A cmp P Ha Ht. exact (external_sort_stable_l cmp P Ha Ht). Qed.
 Print Assumptions external_sort_spec.
 
-(** SpillableSortPushOperator: any chunking, any spill threshold *)
+(** SpillableSortPushOperator: any chunking, any spill threshold = the in-memory sort *)
 Theorem spill_sort_spec : forall (A : Type) (cmp : A -> A -> comparison) (P : A -> Prop),
-  (forall a b, P a -> P b -> leb cmp a b = true \/ leb cmp b a = true) ->
+  (forall a b, P a -> P b -> cmp b a = CompOpp (cmp a b)) ->
   (forall a b c, P a -> P b -> P c -> leb cmp a b = true -> leb cmp b c = true -> leb cmp a c = true) ->
   forall threshold cs, Forall P (concat cs) ->
-  StronglySorted (fun a b => leb cmp a b = true) (spill_sort cmp threshold cs)
-  /\ Permutation (spill_sort cmp threshold cs) (concat cs)
-  /\ (k_cross_ties cmp (spill_runs cmp threshold cs) = false -> spill_sort cmp threshold cs = isort cmp (concat cs)).
-Proof. intros A cmp P Ht Hr. exact (spill_sort_spec_b cmp P Ht Hr). Qed.
+  spill_sort cmp threshold cs = isort cmp (concat cs).
+Proof. intros A cmp P Ha Ht. exact (spill_sort_stable_l cmp P Ha Ht). Qed.
 Print Assumptions spill_sort_spec.
 
-(** C17-K1 for the external sort *)
-Theorem external_sort_refuted : exists (threshold : nat) (cs : list (list (Z * Z))),
+(** before 2824ade (C17-K1) for the external sort *)
+Theorem external_sort_pre_refuted : exists (threshold : nat) (cs : list (list (Z * Z))),
   let cmp := fun a b : Z * Z => Z.compare (fst a) (fst b) in
-  spill_sort cmp threshold cs <> isort cmp (concat cs)
-  /\ sortedb cmp (spill_sort cmp threshold cs) = true
+  spill_sort_pre cmp threshold cs <> isort cmp (concat cs)
+  /\ sortedb cmp (spill_sort_pre cmp threshold cs) = true
   /\ k_cross_ties cmp (spill_runs cmp threshold cs) = true.
 Proof. exact external_sort_refuted_l. Qed.
-Print Assumptions external_sort_refuted.
+Print Assumptions external_sort_pre_refuted.
 
 (** ** 6b. DISTINCT: partial distinct sets of the workers, merged *)
 
@@ -304,7 +336,6 @@ Theorem distinct_merge_parts : forall (A : Type) (req : A -> A -> bool),
 Proof. exact (@distinct_merge_parts). Qed.
 Print Assumptions distinct_merge_parts.
 
-(** whatever rows each worker saw (any schedule): the merged distinct set is that of the sequential run *)
 Theorem distinct_schedule_independent : forall (A : Type) (req : A -> A -> bool),
   (forall a b, req a b = true <-> a = b) ->
   forall (parts : list (list A)) (rows : list A), Permutation (concat parts) rows ->
@@ -322,15 +353,6 @@ Theorem merge_distinct_spec : forall (A : Type) (req : A -> A -> bool),
   = rows_to_chunks (dedup req (fun r => r) [] (map snd (concat (concat results)))) 2048.
 Proof. exact (@merge_distinct_spec_l). Qed.
 Print Assumptions merge_distinct_spec.
-
-(** ** 6c. GROUP BY: grouping every hash partition separately (the spilling aggregate) = grouping everything *)
-Theorem group_by_partitioned : forall (K : Type) (keq : K -> K -> bool) (aggs : list aggexpr) (pf : K -> nat),
-  (forall a b, keq a b = true -> pf a = pf b) ->
-  forall n, (forall k, (pf k < n)%nat) -> forall rows : list (K * row * row),
-  Permutation (concat (map (fun p => group_by keq aggs (filter (fun x => Nat.eqb (pf (fst (fst x))) p) rows)) (seq 0 n)))
-              (group_by keq aggs rows).
-Proof. exact (@group_by_partitioned_l). Qed.
-Print Assumptions group_by_partitioned.
 
 (** ** 7. hash partitions and spill files *)
 
@@ -350,16 +372,26 @@ Theorem spill_files_drain : forall s i, In i (f_part s) -> ~ In i (g_disk (f_mgr
 Proof. exact spill_files_drain_l. Qed.
 Print Assumptions spill_files_drain.
 
+Theorem spill_files_partition : forall s i, In i (f_part s) -> ~ In i (g_disk (f_mgr (fstep s FPartCleanup))).
+Proof. exact spill_files_partition_l. Qed.
+Print Assumptions spill_files_partition.
+
 Theorem spill_files_manager : forall ops, g_disk (f_mgr (frun (ops ++ [FMgrCleanup]))) = [].
 Proof. exact spill_files_manager_l. Qed.
 Print Assumptions spill_files_manager.
 
-(** C17-K6: PartitionedState::cleanup / drop leaves the files of spilled partitions on disk *)
-Theorem spill_files_refuted : exists ops,
-  k_part_cleanup_leaves fstate0 ops = true /\ f_sort (frun ops) = [] /\ f_part (frun ops) = []
-  /\ disk_count (frun ops) = 1%nat.
-Proof. exact spill_files_refuted_l. Qed.
-Print Assumptions spill_files_refuted.
+(** whatever happened before: once the partitioned state and the external sort are cleaned up or dropped
+    no spill file is left, without waiting for the manager *)
+Theorem spill_files_all_removed : forall ops, g_disk (f_mgr (frun (ops ++ [FPartCleanup; FSortDrop]))) = [].
+Proof. exact spill_files_all_removed_l. Qed.
+Print Assumptions spill_files_all_removed.
+
+(** before 5457c98 (C17-K6): PartitionedState::cleanup / drop left the files of spilled partitions on disk *)
+Theorem spill_files_pre_refuted : exists ops,
+  k_part_cleanup_leaves fstate0 ops = true /\ f_sort (frun_pre ops) = [] /\ f_part (frun_pre ops) = []
+  /\ disk_count (frun_pre ops) = 1%nat.
+Proof. exact spill_files_pre_refuted_l. Qed.
+Print Assumptions spill_files_pre_refuted.
 
 (** ** non-vacuity of the hypotheses *)
 
@@ -377,7 +409,7 @@ Example sorted_runs_exist :
   /\ merge_sorted_runs cmp runs = [(1, 0); (2, 2); (3, 1); (4, 3)]%Z.
 Proof. cbn. repeat split; repeat constructor. Qed.
 
-Example uniform_column_exists : uniformb [VInt 3; VNull; VInt 1] = true /\ uniformb [VInt 1; VFlt 0] = false.
+Example uniform_column_exists : uniformb [VInt 3; VNull; VInt 1] = true /\ uniformb [VInt 1; VFlt 0] = true /\ uniformb [VInt 1; VStr 0] = false.
 Proof. cbn. auto. Qed.
 
 Example valid_schedule_exists : valid_schedule 3 [[2]; []; [0; 1]]%nat.
